@@ -247,5 +247,25 @@ CHECKS["C20"] = {
     "note": "Dict/Set items documented as not synchronised; 3 objects; a one-way target that diverged on its own is "
             "not constrained by later in-place mutations of the source (statement only fixes assignments there)",
 }
+CHECKS["C14"] = {
+    "category": "model_checking",
+    "technique": MC + " (history BFS to reach object states, then every copy operation + fixed liveness suite; differential round-trip of trait definitions)",
+    "text": "Part A: an object with List/List(List)/Dict(Str,List)/Set/Dict keyed by objects, an Instance graph with "
+            "sharing, transient, ReadOnly, UUID(can_init), Map, copy='ref'/'shallow'/'deep' metadata, an observed "
+            "cached Property, an @observe method and a static items handler; every history up to depth 3 (4 "
+            "thorough) over 26 events, then each of pickle protocols 0-5, deepcopy, clone_traits(), "
+            "clone_traits('deep'), clone_traits('shallow'): same class, equal non-transient state, transient at "
+            "default, no mutable object (container or node, incl. dict keys) shared with the original, inited flag "
+            "kept, and a liveness suite on the copy (13 invalid insertions/assignments into every nested container "
+            "must raise TraitError, one valid append must call the copy's items handler and @observe method once and "
+            "not the original's, property recomputes, write-once stays written, shadow value follows) leaving the "
+            "original untouched. Part B: the CTrait of ~60 definition kinds (shared grid + plain/validated/read-only "
+            "Property, Delegate, Event, Event(Int), Constant, ReadOnly, Any) x pickle 0-5 / copy / deepcopy, then "
+            "installed with add_trait next to the original and driven by the same 38-step get/set/del script: "
+            "identical outcome traces, default and metadata.",
+    "note": "user __getstate__ overrides and pre-3.0 pickles out of scope; five known findings (objects with "
+            "ReadOnly(default)/UUID() cannot be unpickled; ReadOnly/Module/dynamic-Range definitions cannot be "
+            "pickled)",
+}
 
 NOT_CLAIMED = {}
